@@ -372,6 +372,76 @@ theorem tryAdd_marks_chain (s : St) (a b : Nat) (s' : St) (chain : List Nat)
     · cases h
     · cases h
       exact isFlag_marks_mem _ _ x hx
+/-! ### `remove_constraint_edge` -/
+
+theorem isFlag_unmarkFlag (s : St) (u x : Nat) :
+    (s.unmarkFlag u).isFlag x = (s.isFlag x && decide (x / 2 ≠ u)) := by
+  rw [isFlag_eq, isFlag_eq]
+  unfold unmarkFlag
+  simp only
+  by_cases h : u = x / 2
+  · rw [← h, Array.getElem?_setIfInBounds]
+    simp only [if_true]
+    split
+    · simp
+    · rename_i hu
+      rw [Array.getElem?_eq_none (by omega)]; simp
+  · rw [Array.getElem?_setIfInBounds_ne h]
+    have : decide (x / 2 ≠ u) = true := by simpa using fun hc => h hc.symm
+    rw [this, Bool.and_true]
+
+/-- the link invariant does not mention the constraint flags -/
+theorem LInv.unmarkFlag {s : St} (hs : LInv s) (u : Nat) : LInv (s.unmarkFlag u) :=
+  ⟨hs.even, hs.faces, hs.dsz, hs.vsz, hs.edge, hs.anchor⟩
+
+/-- **C04 on the model: `remove_constraint_edge` removes exactly the named constraint.**  When the
+edge between `a` and `b` is a constraint edge, afterwards it is not, and every other edge keeps its
+flag (the legalisation that follows never touches a flag); when it is not, nothing changes. -/
+theorem removeConstraint_flags (s : St) (a b : Nat) (t : St) (ans : Bool)
+    (h : s.removeConstraintEdgeM a b = some (t, ans)) :
+    ∃ e, s.edgeFromNeighbors a b = some e ∧ ans = s.isFlag e ∧
+      ∀ x, t.isFlag x = (s.isFlag x && !(ans && decide (x / 2 = e / 2))) := by
+  unfold removeConstraintEdgeM at h
+  cases he : s.edgeFromNeighbors a b with
+  | none => rw [he] at h; cases h
+  | some e =>
+    rw [he] at h
+    simp only at h
+    have hfe : s.isFlag (2 * (e / 2)) = s.isFlag e := by
+      unfold isFlag; rw [Nat.mul_div_cancel_left _ (by decide : 0 < 2)]
+    refine ⟨e, rfl, ?_⟩
+    by_cases hf : s.isFlag (2 * (e / 2)) = true
+    · rw [if_pos hf] at h
+      obtain ⟨rfl, rfl⟩ := Prod.mk.inj (Option.some.inj h)
+      refine ⟨by rw [← hfe, hf], ?_⟩
+      intro x
+      unfold legalizeEdge isFlag
+      rw [flag_legalizeLoop]
+      have := isFlag_unmarkFlag s (e / 2) x
+      unfold isFlag at this
+      rw [this]
+      by_cases hx : x / 2 = e / 2 <;> simp [hx]
+    · rw [if_neg hf] at h
+      obtain ⟨rfl, rfl⟩ := Prod.mk.inj (Option.some.inj h)
+      refine ⟨by rw [← hfe]; simpa using hf, ?_⟩
+      intro x; simp
+
+/-- `remove_constraint_edge` keeps the link invariant (clearing a flag changes no link; the
+legalisation keeps it for every stack) -/
+theorem LInv.removeConstraintEdgeM {s : St} (hs : LInv s) (a b : Nat) (t : St) (ans : Bool)
+    (h : s.removeConstraintEdgeM a b = some (t, ans)) : LInv t := by
+  unfold St.removeConstraintEdgeM at h
+  cases he : s.edgeFromNeighbors a b with
+  | none => rw [he] at h; cases h
+  | some e =>
+    rw [he] at h
+    simp only at h
+    split at h
+    · obtain ⟨rfl, _⟩ := Prod.mk.inj (Option.some.inj h)
+      unfold St.legalizeEdge
+      exact LInv.legalizeLoop _ _ (hs.unmarkFlag _) _
+    · obtain ⟨rfl, _⟩ := Prod.mk.inj (Option.some.inj h)
+      exact hs
 
 end St
 end Spade
